@@ -57,6 +57,62 @@ def crToLf (c : Char) : Char := if c == '\r' then '\n' else c
 def csvRecords (s : List Char) : List (List String) :=
   ((splitOnChar '\n' (s.map crToLf)).filter fun l => !l.isEmpty).map fun l => (splitOnChar ',' l).map String.ofList
 
+/-! the quoted dialect (RFC 4180 as the `csv` reader implements it, for texts whose quotes are all
+    well-formed quoted fields): a field that starts with `"` runs to the next lone `"`, `""` stands for
+    one quote, delimiters and line breaks inside count as text; the closing quote must be followed by
+    a delimiter, a line end or the end of the text. Anything else is outside the model (`none`). -/
+inductive QState where
+  | start | unquoted | quoted | quoteSeen
+deriving DecidableEq
+
+/-- `(state, field so far (reversed), record so far (reversed), records so far (reversed))` -/
+def csvQStep (st : QState × List Char × List String × List (List String)) (c : Char) :
+    Option (QState × List Char × List String × List (List String)) :=
+  let (q, f, r, rs) := st
+  let endField : List String := String.ofList f.reverse :: r
+  let isNl := c == '\n' || c == '\r'
+  match q with
+  | .start =>
+    if c == '"' then some (.quoted, [], r, rs)
+    else if c == ',' then some (.start, [], "" :: r, rs)
+    else if isNl then
+      -- an empty line is skipped; a record that ends right after a delimiter gets an empty last field
+      if r.isEmpty then some (.start, [], [], rs) else some (.start, [], [], ("" :: r).reverse :: rs)
+    else some (.unquoted, [c], r, rs)
+  | .unquoted =>
+    if c == '"' then none
+    else if c == ',' then some (.start, [], endField, rs)
+    else if isNl then some (.start, [], [], endField.reverse :: rs)
+    else some (.unquoted, c :: f, r, rs)
+  | .quoted =>
+    if c == '"' then some (.quoteSeen, f, r, rs) else some (.quoted, c :: f, r, rs)
+  | .quoteSeen =>
+    if c == '"' then some (.quoted, '"' :: f, r, rs)
+    else if c == ',' then some (.start, [], endField, rs)
+    else if isNl then some (.start, [], [], endField.reverse :: rs)
+    else none
+
+def csvQRun : List Char → QState × List Char × List String × List (List String) →
+    Option (QState × List Char × List String × List (List String))
+  | [], st => some st
+  | c :: cs, st => match csvQStep st c with
+    | some st' => csvQRun cs st'
+    | none => none
+
+/-- the records of a text in the quoted dialect -/
+def csvRecordsQ (s : List Char) : Option (List (List String)) :=
+  match csvQRun s (.start, [], [], []) with
+  | none => none
+  | some (q, f, r, rs) =>
+    match q with
+    | .quoted => none
+    | .start => some (if r.isEmpty then rs.reverse else (("" :: r).reverse :: rs).reverse)
+    | _ => some (((String.ofList f.reverse :: r).reverse :: rs).reverse)
+
+/-- the records the reader yields, in either modelled dialect -/
+def csvRecordsAny (s : List Char) : Option (List (List String)) :=
+  if simpleDialect s then some (csvRecords s) else csvRecordsQ s
+
 /-- Rust `str::trim` -/
 def trimBoth (s : List Char) : List Char := (trimWs (trimWs s).reverse).reverse
 
@@ -153,6 +209,11 @@ def fromCsvCommon (count : Nat) (recs : List (List String)) : Except CsvErr (Tab
 def fromCsvString (s : String) : Except CsvErr (Table String) :=
   if s.isEmpty then .ok ⟨[], []⟩
   else fromCsvCommon (fileRowCount s.toList) (csvRecords s.toList)
+
+/-- `from_csv_string` on a text of either modelled dialect -/
+def fromCsvStringAny (s : String) : Option (Except CsvErr (Table String)) :=
+  if s.isEmpty then some (.ok ⟨[], []⟩)
+  else (csvRecordsAny s.toList).map fun recs => fromCsvCommon (fileRowCount s.toList) recs
 
 /-! export -/
 def headerRow (t : Table String) : List String := t.inputs ++ [resultHeader]
